@@ -725,6 +725,24 @@ def events(t):
 # slice algebra: which part of which buffer does a slice expression denote?
 
 
+def _digest_len(t):
+    """Output size of a RustCrypto fixed-output hasher named in the call's generic arguments (Sha256 -> 32 ...)."""
+    g = " ".join(str(x) for x in (t.a[0][1] or ()))
+    for name, n in (("Sha256", 32), ("Sha512", 64), ("Sha384", 48), ("Sha224", 28), ("Sha3_256", 32), ("Sha3_512", 64), ("Blake2b512", 64), ("Blake2s256", 32)):
+        if name in g:
+            return n
+    return None
+
+
+_FIXED_LEN_CALLS = {
+    "num::<impl u64>::to_le_bytes": 8, "num::<impl u64>::to_be_bytes": 8, "num::<impl u64>::to_ne_bytes": 8,
+    "num::<impl usize>::to_le_bytes": 8, "num::<impl usize>::to_be_bytes": 8,
+    "num::<impl u32>::to_le_bytes": 4, "num::<impl u32>::to_be_bytes": 4,
+    "num::<impl u16>::to_le_bytes": 2, "num::<impl u16>::to_be_bytes": 2,
+    "num::<impl u128>::to_le_bytes": 16, "num::<impl u128>::to_be_bytes": 16,
+}
+
+
 def int_form(t, wrap=False):
     """usize term -> length form (("c",k) | ("len",x) | ("t",x) | ("add",a,b) | ("sub",a,b)); `len` of a slice
     expression is expanded to end - start.  With wrap=True the plain (unchecked, wrapping in release builds) `+`/`-`
@@ -752,13 +770,40 @@ def int_form(t, wrap=False):
                 break
         if y.op == "call" and cname(y) in ("alloc::from_elem", "vec::from_elem", "from_elem") and len(y.a[1]) == 2:
             return int_form(y.a[1][1], wrap)
+        if y.op == "call" and cname(y) in _FIXED_LEN_CALLS:
+            return ("c", _FIXED_LEN_CALLS[cname(y)])
+        if y.op == "call" and cname(y) in ("FixedOutput::finalize_fixed", "Digest::finalize", "Digest::digest", "FixedOutputReset::finalize_fixed_reset"):
+            # output of a fixed-size hash: the size is in the hasher's type
+            n_ = _digest_len(y)
+            if n_ is not None:
+                return ("c", n_)
+        if (y.op == "mutcall" and cname(y) in ("Vec::<T, A>::extend_from_slice", "Vec::<T, A>::push", "Extend::extend", "Write::write_all", "Vec::<T, A>::insert")) or (y.op == "call" and cname(y) in ("slice::<impl [T]>::to_vec", "slice::<impl [T]>::concat", "Iterator::chain")):
+            # a byte string assembled from parts: its length is the sum of the parts' lengths
+            try:
+                tl = _total_len(nf(None, y))
+            except Exception:
+                tl = None
+            if tl is not None and _lin(tl) is not None:
+                return tl
         if y.op == "repeat" and isinstance(y.a[1], int):
             return ("c", y.a[1])
+        if y.op == "repeat" and isinstance(y.a[1], str):
+            # `[v; N]` with a const generic N: the length is that parameter (the same atom as the operand `N`)
+            return ("t", T("const", "tyconst", y.a[1]))
         if y.op == "agg" and y.a[0][0] == "array":
             return ("c", len(y.a[1]))
         if y is not peel(x):
             return ("len", strip_sites(y))
         return ("len", strip_sites(peel(x)))
+    if t.op == "call" and len(t.a[1]) == 2 and cname(t) in ("num::<impl usize>::saturating_sub", "num::<impl u64>::saturating_sub"):
+        # `buf.len().saturating_sub(n)` where n = (Uint::peek(buf) as Some).0 <= buf.len() by the peek contract: the plain difference
+        a_, b_ = peel(t.a[1][0]), peel(t.a[1][1])
+        if b_.op == "field" and b_.a[1] == "0" and b_.a[0].op == "downcast" and b_.a[0].a[1] == "Some":
+            pk = peel(b_.a[0].a[0])
+            if pk.op == "call" and cname(pk) == "Uint::peek" and pk.a[1]:
+                la = int_form(a_, wrap)
+                if _lin_eq(la, int_form(T("len", peel(pk.a[1][0])), wrap)):
+                    return ("sub", la, int_form(b_, wrap))
     if t.op == "field" and t.a[1] == "0" and t.a[0].op == "downcast" and t.a[0].a[1] == "Some":
         # `a.checked_add(b)` / `checked_sub` on the Some arm: the exact sum / difference
         c = peel(t.a[0].a[0])
